@@ -131,6 +131,7 @@ func execPredicate(context *exprContext, expr *grammar.Grammar) error {
 		nextContext := context.copy()
 		nextContext.result = NodeSet{nodeSet[i]}
 		nextContext.contextPosition = i
+		nextContext.contextSize = len(nodeSet)
 		left, err := leftOnlyIndependentResult(&nextContext, expr)
 
 		if err != nil {
